@@ -1875,6 +1875,11 @@ impl VirtualFileSystem for Memfs {
             }
         }
 
+        // Nothing to remove if the target doesn't exist
+        if !guard.contains_entry(&path) {
+            return Ok(());
+        }
+
         // Next remove the file from its parent
         let dir = path.dir()?;
         if let Some(entry) = guard.get_entry_mut(&dir) {
